@@ -114,3 +114,603 @@ Proof.
   intros H. unfold ci_contains. apply substrb_complete.
   apply substr_upper in H. now rewrite upper_idem in H.
 Qed.
+
+(* ================================================================== words *)
+Definition nonws (c : ascii) : bool := negb (is_ws c).
+Definition good_word (w : string) : Prop := w <> "" /\ allb nonws w = true.
+
+Lemma words_head_prefix r c r' :
+  r = String c r' -> is_ws c = false -> exists w t q, words r = w :: t /\ r = w ++ q /\ w <> "".
+Proof.
+  revert c r'. induction r as [|x r IH]; intros c r' E Hc; [discriminate|].
+  inversion E; subst x r'. simpl. rewrite Hc. destruct r as [|y r2].
+  - exists (s1 c), [], "". repeat split; discriminate.
+  - destruct (is_ws y) eqn:Hy.
+    + exists (s1 c), (words (String y r2)), (String y r2). repeat split; discriminate.
+    + destruct (IH y r2 eq_refl Hy) as [w [t [q [Hw [Hr Hne]]]]]. rewrite Hw. simpl.
+      exists (String c w), t, q. repeat split; [now rewrite Hr at 1 | discriminate].
+Qed.
+
+Lemma words_hd_substr s w t : words s = w :: t -> substr w s.
+Proof.
+  revert w t. induction s as [|c r IH]; intros w t H; simpl in H; [discriminate|].
+  destruct (is_ws c) eqn:Hc.
+  - apply substr_cons. eapply IH; eauto.
+  - destruct r as [|y r2].
+    + inversion H; subst. apply substr_refl.
+    + destruct (is_ws y) eqn:Hy.
+      * inversion H; subst. exists "", (String y r2). reflexivity.
+      * destruct (words_head_prefix (String y r2) y r2 eq_refl Hy) as [w0 [t0 [q [Hw [Hr _]]]]].
+        rewrite Hw in H. simpl in H. inversion H; subst. exists "", q. simpl. now rewrite Hr at 1.
+Qed.
+
+Lemma cons_first_good c l : is_ws c = false -> Forall good_word l -> Forall good_word (cons_first c l).
+Proof.
+  intros Hc Hl. destruct l as [|w t]; simpl.
+  - constructor; [|constructor]. split; [discriminate|]. simpl. unfold nonws. now rewrite Hc.
+  - inversion Hl; subst. constructor; [|assumption]. destruct H1 as [_ H1]. split; [discriminate|].
+    simpl. unfold nonws at 1. now rewrite Hc, H1.
+Qed.
+Lemma words_good s : Forall good_word (words s).
+Proof.
+  induction s as [|c r IH]; simpl; [constructor|].
+  destruct (is_ws c) eqn:Hc; [exact IH|].
+  destruct r as [|y r2].
+  - constructor; [|constructor]. split; [discriminate|]. simpl. unfold nonws. now rewrite Hc.
+  - destruct (is_ws y) eqn:Hy.
+    + constructor; [|exact IH]. split; [discriminate|]. simpl. unfold nonws. now rewrite Hc.
+    + now apply cons_first_good.
+Qed.
+Lemma words_single s : s <> "" -> allb nonws s = true -> words s = [s].
+Proof.
+  induction s as [|c r IH]; intros Hne H; [congruence|]. simpl in H. apply andb_true_iff in H as [H1 H2].
+  unfold nonws in H1. apply negb_true_iff in H1. simpl. rewrite H1. destruct r as [|y r2]; [reflexivity|].
+  simpl in H2. apply andb_true_iff in H2 as [H2 H3]. unfold nonws in H2. apply negb_true_iff in H2. rewrite H2.
+  rewrite IH; [reflexivity | discriminate | simpl; unfold nonws at 1; now rewrite H2, H3].
+Qed.
+Lemma firstn_Forall {A} (P : A -> Prop) n l : Forall P l -> Forall P (firstn n l).
+Proof. revert l; induction n; intros l H; simpl; [constructor|]. destruct l; [constructor|]. inversion H; subst. constructor; auto. Qed.
+
+(* ================================================================== strip *)
+Definition has_nonws (s : string) : bool := negb (allb is_ws s).
+Lemma rstrip_app_nonws s c : is_ws c = false -> rstrip (s ++ s1 c) = s ++ s1 c.
+Proof.
+  intros Hc. induction s as [|x s IH]; simpl.
+  - now rewrite Hc.
+  - rewrite IH. destruct (s ++ s1 c) eqn:E; [destruct s; discriminate|]. simpl. now rewrite andb_false_r.
+Qed.
+Lemma rstrip_prefix s : exists q, s = rstrip s ++ q.
+Proof.
+  induction s as [|c r [q IH]]; simpl; [now exists ""|].
+  destruct (is_ws c && is_empty (rstrip r))%bool; [now exists (String c r)|]. exists q. simpl. now rewrite <- IH.
+Qed.
+Lemma rstrip_nonempty c r : is_ws c = false -> is_empty (rstrip (String c r)) = false.
+Proof. intros H. simpl. now rewrite H. Qed.
+Lemma strip_substr s : substr (strip s) s.
+Proof.
+  unfold strip, lstrip. destruct (drop_suffix (span is_ws s) s) as [p Hp].
+  destruct (rstrip_prefix (drop (span is_ws s) s)) as [q Hq].
+  exists p, q. rewrite <- Hq. exact Hp.
+Qed.
+Lemma lstrip_nonws_head s : has_nonws s = true -> exists c r, lstrip s = String c r /\ is_ws c = false.
+Proof.
+  unfold has_nonws, lstrip. induction s as [|x s IH]; simpl; [discriminate|].
+  destruct (is_ws x) eqn:Hx; simpl.
+  - exact IH.
+  - intros _. now exists x, s.
+Qed.
+Lemma strip_nonempty s : has_nonws s = true -> is_empty (strip s) = false.
+Proof.
+  intros H. unfold strip. destruct (lstrip_nonws_head s H) as [c [r [E Hc]]]. rewrite E. now apply rstrip_nonempty.
+Qed.
+Lemma strip_id c s d : is_ws c = false -> is_ws d = false -> strip (String c (s ++ s1 d)) = String c (s ++ s1 d).
+Proof.
+  intros Hc Hd. unfold strip, lstrip. simpl span. rewrite Hc. simpl drop.
+  change (String c (s ++ s1 d)) with (String c s ++ s1 d). now apply rstrip_app_nonws.
+Qed.
+
+(* ================================================================== lines *)
+Definition no_lf (s : string) : bool := allb (fun c => negb (is_lf c)) s.
+Lemma split_lf_no_lf s : no_lf s = true -> split_lf s = [s].
+Proof.
+  induction s as [|c r IH]; simpl; [reflexivity|]. intros H. apply andb_true_iff in H as [H1 H2].
+  apply negb_true_iff in H1. rewrite H1, (IH H2). reflexivity.
+Qed.
+Lemma split_lf_app a b : no_lf a = true -> split_lf (a ++ String LF b) = a :: split_lf b.
+Proof.
+  induction a as [|c r IH]; simpl; [reflexivity|]. intros H. apply andb_true_iff in H as [H1 H2].
+  apply negb_true_iff in H1. rewrite H1, (IH H2). reflexivity.
+Qed.
+Lemma split_lf_sconcat ls : ls <> [] -> forallb no_lf ls = true -> split_lf (sconcat (s1 LF) ls) = ls.
+Proof.
+  induction ls as [|a ls IH]; [congruence|]. intros _ H. simpl in H. apply andb_true_iff in H as [H1 H2].
+  destruct ls as [|b ls].
+  - simpl. now apply split_lf_no_lf.
+  - change (sconcat (s1 LF) (a :: b :: ls)) with (a ++ s1 LF ++ sconcat (s1 LF) (b :: ls)).
+    change (s1 LF ++ sconcat (s1 LF) (b :: ls)) with (String LF (sconcat (s1 LF) (b :: ls))).
+    rewrite split_lf_app by assumption. f_equal. apply IH; [discriminate | assumption].
+Qed.
+
+Lemma last_char_app s c : last_char (s ++ s1 c) = Some c.
+Proof.
+  induction s as [|x s IH]; simpl; [reflexivity|]. rewrite IH. destruct (s ++ s1 c) eqn:E; [destruct s; discriminate|reflexivity].
+Qed.
+
+Definition nm_ok (nm : string) : bool := (no_lf nm && has_nonws nm)%bool.
+
+Lemma parse_header nm :
+  has_nonws nm = true ->
+  parse_line None [] (String (chr 91) (nm ++ "]")) = SOk (Some (new_rule (strip nm))) [].
+Proof.
+  intros H. unfold parse_line.
+  change "]" with (s1 (chr 93)).
+  rewrite (strip_id (chr 91) nm (chr 93)) by reflexivity.
+  cbn [is_empty starts_with_c orb andb].
+  change (N.eqb (cn (chr 91)) 35) with false. change (N.eqb (cn (chr 91)) 91) with true.
+  cbn [orb andb]. unfold ends_with_c.
+  change (String (chr 91) (nm ++ s1 (chr 93))) with (String (chr 91) nm ++ s1 (chr 93)).
+  rewrite last_char_app. change (N.eqb (cn (chr 93)) 93) with true. cbn [flush].
+  rewrite slen_app. cbn [String.length s1 drop]. 
+  replace (S (String.length nm) + 1 - 2) with (String.length nm) by lia.
+  change (String (chr 91) nm ++ s1 (chr 93)) with (String (chr 91) (nm ++ s1 (chr 93))). cbv iota. rewrite take_app_exact. now rewrite (strip_nonempty nm H).
+Qed.
+
+Lemma strip_lead_sp a s d : is_ws a = false -> is_ws d = false ->
+  strip (String " " (String a (s ++ s1 d))) = String a (s ++ s1 d).
+Proof.
+  intros Ha Hd. unfold strip, lstrip. cbn [span]. change (is_ws " ") with true. rewrite Ha. cbn [drop].
+  change (String a (s ++ s1 d)) with (String a s ++ s1 d). now apply rstrip_app_nonws.
+Qed.
+
+Definition set_match (rd : rdata) (v : string) : rdata :=
+  {| r_name := r_name rd; r_match := Some v; r_category := r_category rd; r_subcategory := r_subcategory rd;
+     r_merchant := r_merchant rd; r_tags := r_tags rd |}.
+
+Definition is_colon (c : ascii) : bool := N.eqb (cn c) 58.
+Definition dispatch (rd : rdata) (done : list rule) (key value : string) : sres :=
+  if String.eqb key "match" then SOk (Some {| r_name := r_name rd; r_match := Some value; r_category := r_category rd;
+       r_subcategory := r_subcategory rd; r_merchant := r_merchant rd; r_tags := r_tags rd |}) done
+  else if String.eqb key "category" then SOk (Some {| r_name := r_name rd; r_match := r_match rd; r_category := Some value;
+       r_subcategory := r_subcategory rd; r_merchant := r_merchant rd; r_tags := r_tags rd |}) done
+  else if String.eqb key "subcategory" then SOk (Some {| r_name := r_name rd; r_match := r_match rd; r_category := r_category rd;
+       r_subcategory := Some value; r_merchant := r_merchant rd; r_tags := r_tags rd |}) done
+  else if String.eqb key "merchant" then SOk (Some {| r_name := r_name rd; r_match := r_match rd; r_category := r_category rd;
+       r_subcategory := r_subcategory rd; r_merchant := Some value; r_tags := r_tags rd |}) done
+  else if String.eqb key "tags" then SOk (Some {| r_name := r_name rd; r_match := r_match rd; r_category := r_category rd;
+       r_subcategory := r_subcategory rd; r_merchant := r_merchant rd; r_tags := Some value |}) done
+  else if (String.eqb key "let" || String.eqb key "field" || String.eqb key "priority")%bool then SUnm
+  else SErr.
+
+Lemma parse_line_key rd done line st i key value :
+  strip line = st -> is_empty st = false -> starts_with_c 35 st = false -> starts_with_c 91 st = false ->
+  index_of is_colon st = Some i ->
+  lower (strip (take i st)) = key -> strip (drop (S i) st) = value ->
+  parse_line (Some rd) done line = dispatch rd done key value.
+Proof.
+  intros H1 H2 H3 H4 H5 H6 H7. unfold parse_line. rewrite H1. cbv zeta. rewrite H2, H3, H4.
+  cbn [orb andb]. fold is_colon. rewrite H5, H6, H7. reflexivity.
+Qed.
+
+Lemma parse_match_line rd done q :
+  parse_line (Some rd) done ("match: contains(" ++ q ++ ")") = SOk (Some (set_match rd ("contains(" ++ q ++ ")"))) done.
+Proof.
+  rewrite (parse_line_key rd done _ ("match: contains(" ++ q ++ ")") 5 "match" ("contains(" ++ q ++ ")")); try reflexivity.
+  - change ("match: contains(" ++ q ++ ")") with (String "m" (("atch: contains(" ++ q) ++ s1 ")")).
+    now rewrite strip_id by reflexivity.
+  - change (drop 6 ("match: contains(" ++ q ++ ")")) with (String " " (String "c" (("ontains(" ++ q) ++ s1 ")"))).
+    now rewrite strip_lead_sp by reflexivity.
+Qed.
+
+Lemma parse_const_line rd done line key value :
+  strip line = line -> is_empty line = false -> starts_with_c 35 line = false -> starts_with_c 91 line = false ->
+  forall i, index_of is_colon line = Some i -> lower (strip (take i line)) = key -> strip (drop (S i) line) = value ->
+  parse_line (Some rd) done line = dispatch rd done key value.
+Proof. intros. eapply parse_line_key; eauto. Qed.
+
+Lemma parse_expr_contains body n :
+  unesc UN (body ++ String DQ ")") = UOk n ")" ->
+  parse_expr ("contains(" ++ String DQ (body ++ s1 DQ) ++ ")") = POk (ECall "contains" n).
+Proof.
+  intros H.
+  assert (E : "contains(" ++ String DQ (body ++ s1 DQ) ++ ")" = "contains" ++ String "(" (String DQ (body ++ String DQ ")"))).
+  { cbn [append]. now rewrite sapp_assoc. }
+  rewrite E. unfold parse_expr. cbn -[unesc]. cbn -[unesc] in H. rewrite H. reflexivity.
+Qed.
+
+Definition the_rule (nm n : string) : rule := {| name := strip nm; mexpr := ECall "contains" n; category := "CATEGORY" |}.
+
+Lemma load_rule_lines nm body n tags :
+  nm_ok nm = true -> no_lf body = true -> (tags = [] \/ tags = ["refund"]) ->
+  unesc UN (body ++ String DQ ")") = UOk n ")" ->
+  parse_merchants (sconcat (s1 LF) (rule_lines nm (String DQ (body ++ s1 DQ)) tags)) = Loaded [the_rule nm n].
+Proof.
+  intros Hnm Hb Ht Hu. unfold nm_ok in Hnm. apply andb_true_iff in Hnm as [Hn1 Hn2].
+  unfold parse_merchants. rewrite split_lf_sconcat.
+  2:{ unfold rule_lines. destruct tags; discriminate. }
+  2:{ assert (L1 : no_lf (String (chr 91) (nm ++ "]")) = true).
+      { unfold no_lf in *. cbn [allb]. rewrite allb_app, Hn1. reflexivity. }
+      assert (L2 : no_lf ("match: contains(" ++ String DQ (body ++ s1 DQ) ++ ")") = true).
+      { unfold no_lf in *. rewrite !allb_app. cbn [allb]. rewrite !allb_app, Hb. reflexivity. }
+      unfold rule_lines. destruct Ht as [-> | ->]; cbn [app forallb]; rewrite L1, L2; reflexivity. }
+  unfold rule_lines. cbn [app].
+  assert (P : forall tl, parse_lines None []
+     (String (chr 91) (nm ++ "]") :: ("match: contains(" ++ String DQ (body ++ s1 DQ) ++ ")") :: "category: CATEGORY" :: "subcategory: SUBCATEGORY" :: tl)
+     = parse_lines (Some {| r_name := strip nm; r_match := Some ("contains(" ++ String DQ (body ++ s1 DQ) ++ ")");
+                           r_category := Some "CATEGORY"; r_subcategory := Some "SUBCATEGORY"; r_merchant := None; r_tags := None |}) [] tl).
+  { intros tl. cbn [parse_lines]. rewrite (parse_header nm Hn2). cbv beta iota. rewrite parse_match_line. cbv beta iota.
+    rewrite (parse_const_line _ _ "category: CATEGORY" "category" "CATEGORY") with (i := 8) by reflexivity.
+    unfold dispatch at 1. cbn [String.eqb Ascii.eqb Bool.eqb]. cbv beta iota.
+    rewrite (parse_const_line _ _ "subcategory: SUBCATEGORY" "subcategory" "SUBCATEGORY") with (i := 11) by reflexivity.
+    unfold dispatch at 1. cbn [String.eqb Ascii.eqb Bool.eqb]. cbv beta iota.
+    reflexivity. }
+  destruct Ht as [-> | ->].
+  - cbn [app]. rewrite P. cbn [parse_lines flush]. unfold add_rule. cbn [r_match r_category is_empty negb r_tags].
+    rewrite (parse_expr_contains body n Hu). reflexivity.
+  - cbn [app]. rewrite P. cbn [parse_lines].
+    rewrite (parse_const_line _ _ ("tags: " ++ sconcat ", " ["refund"]) "tags" "refund") with (i := 4) by reflexivity.
+    unfold dispatch at 1. cbn [String.eqb Ascii.eqb Bool.eqb]. cbv beta iota. cbn [parse_lines flush]. unfold add_rule. cbn [r_match r_category is_empty negb r_tags].
+    rewrite (parse_expr_contains body n Hu). reflexivity.
+Qed.
+
+(* ================================================================== quoting round trips *)
+Lemma json_char_roundtrip c r : unesc UN (json_char c ++ r) = ucons c (unesc UN r).
+Proof. all_chars c. Qed.
+Lemma json_char_no_lf c : no_lf (json_char c) = true.
+Proof. all_chars c. Qed.
+Lemma json_roundtrip n rest : unesc UN (cmap json_char n ++ String DQ rest) = UOk n rest.
+Proof.
+  induction n as [|c n IH]; [reflexivity|].
+  cbn [cmap]. rewrite sapp_assoc, json_char_roundtrip, IH. reflexivity.
+Qed.
+Lemma json_no_lf n : no_lf (cmap json_char n) = true.
+Proof.
+  induction n as [|c n IH]; [reflexivity|]. cbn [cmap]. unfold no_lf in *. rewrite allb_app.
+  fold (no_lf (json_char c)). now rewrite json_char_no_lf, IH.
+Qed.
+
+(* original quoting, for a needle without backslash / NUL / CR / LF *)
+Definition lit_plain_char (c : ascii) : bool := negb (ceq c BSL || raw_forbidden c).
+Lemma qo_char_roundtrip c r : lit_plain_char c = true -> unesc UN (qo_char c ++ r) = ucons c (unesc UN r).
+Proof. all_chars c. Qed.
+Lemma qo_char_no_lf c : lit_plain_char c = true -> no_lf (qo_char c) = true.
+Proof. all_chars c. Qed.
+Lemma qo_roundtrip n rest : allb lit_plain_char n = true -> unesc UN (cmap qo_char n ++ String DQ rest) = UOk n rest.
+Proof.
+  induction n as [|c n IH]; [reflexivity|]. cbn [allb cmap]. intros H. apply andb_true_iff in H as [H1 H2].
+  rewrite sapp_assoc, qo_char_roundtrip, IH by assumption. reflexivity.
+Qed.
+Lemma qo_no_lf n : allb lit_plain_char n = true -> no_lf (cmap qo_char n) = true.
+Proof.
+  induction n as [|c n IH]; [reflexivity|]. cbn [allb cmap]. intros H. apply andb_true_iff in H as [H1 H2].
+  unfold no_lf in *. rewrite allb_app. fold (no_lf (qo_char c)). now rewrite qo_char_no_lf, IH.
+Qed.
+
+(* ================================================================== the merchant name is a loadable header *)
+Lemma title_char_ws c (b : bool) : is_ws (if b then lower_char c else upper_char c) = is_ws c \/ is_alpha c = false.
+Proof. destruct b; all_chars c; auto. Qed.
+Lemma title_char_lf c (b : bool) : is_lf (if b then lower_char c else upper_char c) = is_lf c \/ is_alpha c = false.
+Proof. destruct b; all_chars c; auto. Qed.
+Lemma title_go_ws b s : allb is_ws (title_go b s) = allb is_ws s.
+Proof.
+  revert b; induction s as [|c r IH]; intros b; [reflexivity|]. cbn [title_go].
+  destruct (is_alpha c) eqn:Ha; cbn [allb]; rewrite IH; [|reflexivity].
+  destruct (title_char_ws c b) as [E|E]; [now rewrite E | congruence].
+Qed.
+Lemma title_go_no_lf b s : no_lf (title_go b s) = no_lf s.
+Proof.
+  unfold no_lf. revert b; induction s as [|c r IH]; intros b; [reflexivity|]. cbn [title_go].
+  destruct (is_alpha c) eqn:Ha; cbn [allb]; rewrite IH; [|reflexivity].
+  destruct (title_char_lf c b) as [E|E]; [now rewrite E | congruence].
+Qed.
+Lemma nonws_no_lf w : allb nonws w = true -> no_lf w = true.
+Proof.
+  unfold no_lf. induction w as [|c w IH]; [reflexivity|]. cbn [allb]. intros H. apply andb_true_iff in H as [H1 H2].
+  rewrite (IH H2), andb_true_r. unfold nonws in H1. destruct (is_lf c) eqn:E; [|reflexivity].
+  apply lf_is_ws in E. now rewrite E in H1.
+Qed.
+Lemma sconcat_sp_no_lf ws : Forall good_word ws -> no_lf (sconcat " " ws) = true.
+Proof.
+  induction 1 as [|w t [_ Hw] Ht IH]; [reflexivity|]. destruct t as [|w2 t]; cbn [sconcat].
+  - now apply nonws_no_lf.
+  - unfold no_lf in *. rewrite !allb_app. fold (no_lf w). rewrite (nonws_no_lf w Hw). cbn [allb]. 
+    change (negb (is_lf " ")) with true. cbn [andb]. exact IH.
+Qed.
+Lemma sconcat_sp_has_nonws w t : good_word w -> has_nonws (sconcat " " (w :: t)) = true.
+Proof.
+  intros [Hne Hw]. destruct w as [|c w]; [congruence|]. cbn [allb] in Hw. apply andb_true_iff in Hw as [Hc _].
+  unfold nonws in Hc. apply negb_true_iff in Hc. unfold has_nonws.
+  destruct t; cbn [sconcat append allb]; now rewrite Hc.
+Qed.
+
+Lemma merchant_name_ok d : exists nm, suggest_merchant_name d = Some nm /\ nm_ok nm = true.
+Proof.
+  unfold suggest_merchant_name.
+  assert (T : exists s, apply_subs merchant_subs (strip_prefixes true merchant_prefixes d) = Some s) by (eexists; reflexivity).
+  destruct T as [s ->].
+  pose proof (firstn_Forall good_word merchant_take _ (words_good s)) as G.
+  destruct (firstn merchant_take (words s)) as [|w t] eqn:E.
+  - eexists; split; [reflexivity | reflexivity].
+  - eexists; split; [reflexivity|]. unfold nm_ok, title.
+    rewrite title_go_no_lf. unfold has_nonws. rewrite title_go_ws. fold (has_nonws (sconcat " " (w :: t))).
+    rewrite (sconcat_sp_no_lf _ G). inversion G; subst. now rewrite sconcat_sp_has_nonws.
+Qed.
+
+(* ================================================================== repaired design: the needle *)
+Lemma clean_total d : exists s, clean d = Some s.
+Proof. unfold clean. eexists. reflexivity. Qed.
+
+Lemma try_words_sound n ws d c : try_words n ws d = Some c -> ci_contains c d = true.
+Proof.
+  induction n as [|k IH]; cbn [try_words]; [discriminate|].
+  destruct (ci_contains (sconcat " " (firstn (S k) ws)) d) eqn:E; [|exact IH].
+  intros H; inversion H; subst. exact E.
+Qed.
+Lemma needle_fixed_ok d : exists n, suggest_needle d = Some n /\ ci_contains n d = true.
+Proof.
+  unfold suggest_needle. destruct (clean_total d) as [s6 ->].
+  set (ws := firstn pattern_take (words s6)).
+  destruct (try_words (length ws) ws d) as [c|] eqn:E.
+  - exists c. split; [reflexivity|]. eapply try_words_sound; eauto.
+  - destruct (words (upper d)) as [|w t] eqn:W.
+    + exists "". split; [reflexivity|]. unfold ci_contains. now destruct (upper d).
+    + exists w. split; [reflexivity|]. apply ci_contains_of_substr_upper. eapply words_hd_substr; eauto.
+Qed.
+
+Definition tags_of (neg : bool) : list string := if neg then ["refund"] else [].
+Lemma tags_of_cases neg : tags_of neg = [] \/ tags_of neg = ["refund"].
+Proof. destruct neg; auto. Qed.
+
+Section WithRegex.
+  Variable re_search : string -> string -> option bool.
+
+  Lemma observe_loaded text nm n d :
+    parse_merchants text = Loaded [the_rule nm n] -> observe_text re_search text d = ObsLoaded (ci_contains n d).
+  Proof.
+    intros H. unfold observe_text. rewrite H. cbn [matched the_rule mexpr category eval_expr].
+    change (lower "contains") with "contains". cbn [String.eqb Ascii.eqb Bool.eqb is_empty].
+    now destruct (ci_contains n d).
+  Qed.
+
+  Theorem matches_fixed d neg : observe re_search Fixed d (tags_of neg) = ObsLoaded true.
+  Proof.
+    unfold observe, suggested_rule, needle_of.
+    destruct (merchant_name_ok d) as [nm [-> Hnm]]. destruct (needle_fixed_ok d) as [n [-> Hn]].
+    unfold rule_text, quote, quote_fixed.
+    rewrite (observe_loaded _ nm n).
+    - now rewrite Hn.
+    - apply load_rule_lines; [assumption | apply json_no_lf | apply tags_of_cases | apply json_roundtrip].
+  Qed.
+End WithRegex.
+
+(* ================================================================== original design: the cleaning steps *)
+Definition anchored (m : string -> option nat) : Prop :=
+  forall t k, no_lf t = true -> m t = Some k -> k = String.length t.
+
+Lemma sub_go_skip m k r : String.length r <= k -> sub_go m k r = "".
+Proof.
+  revert k; induction r as [|c r IH]; intros k H; [reflexivity|]. cbn [String.length] in H.
+  destruct k as [|k]; [lia|]. cbn [sub_go]. apply IH. lia.
+Qed.
+Lemma no_lf_app a b : no_lf (a ++ b) = (no_lf a && no_lf b)%bool.
+Proof. apply allb_app. Qed.
+Lemma resub_anchored_prefix m s : anchored m -> no_lf s = true -> exists q, s = resub m s ++ q.
+Proof.
+  intros Hm. unfold resub. induction s as [|c r IH]; intros Hs; [now exists ""|].
+  cbn [sub_go]. destruct (m (String c r)) as [[|k]|] eqn:E.
+  - assert (Hr : no_lf r = true) by (unfold no_lf in *; cbn [allb] in Hs; now apply andb_true_iff in Hs as [_ ?]).
+    destruct (IH Hr) as [q Hq]. exists q. cbn [append]. now rewrite <- Hq.
+  - apply Hm in E; [|assumption]. cbn [String.length] in E. rewrite sub_go_skip by lia. now exists (String c r).
+  - assert (Hr : no_lf r = true) by (unfold no_lf in *; cbn [allb] in Hs; now apply andb_true_iff in Hs as [_ ?]).
+    destruct (IH Hr) as [q Hq]. exists q. cbn [append]. now rewrite <- Hq.
+Qed.
+Lemma no_lf_drop n s : no_lf s = true -> no_lf (drop n s) = true.
+Proof.
+  intros H. destruct (drop_suffix n s) as [p Hp]. rewrite Hp in H. rewrite no_lf_app in H.
+  now apply andb_true_iff in H as [_ ?].
+Qed.
+Lemma ws_then_anchored body :
+  (forall t k, no_lf t = true -> body t = Some k -> k = String.length t) -> anchored (ws_then body).
+Proof.
+  intros Hb t k Ht. unfold ws_then. destruct (span is_ws t) as [|w] eqn:W; [discriminate|].
+  destruct (body (drop (S w) t)) as [k'|] eqn:B; [|discriminate]. intros H; inversion H; subst k.
+  apply Hb in B; [|now apply no_lf_drop]. subst k'. pose proof (span_len is_ws t) as L. rewrite W in L. exact L.
+Qed.
+Lemma to_eol_no_lf x k : no_lf x = true -> to_eol x = Some k -> k = String.length x.
+Proof.
+  intros Hx. unfold to_eol. rewrite (span_all _ x Hx). destruct (at_end _); [|discriminate]. now intros H; inversion H.
+Qed.
+Lemma at_end_no_lf r : no_lf r = true -> at_end r = true -> r = "".
+Proof.
+  destruct r as [|c [|c2 r]]; cbn; try reflexivity; try discriminate.
+  intros H E. rewrite E in H. discriminate.
+Qed.
+Lemma drop_nil_len n s : drop n s = "" -> String.length s <= n.
+Proof.
+  revert s; induction n as [|n IH]; intros s H; cbn in H.
+  - destruct s; [cbn; lia | discriminate].
+  - destruct s as [|c r]; [cbn; lia|]. cbn. apply IH in H. lia.
+Qed.
+Lemma span_le p s : span p s <= String.length s.
+Proof. pose proof (span_len p s). lia. Qed.
+
+Lemma storeid_anchored : anchored m_storeid.
+Proof.
+  apply ws_then_anchored. intros t k Ht. cbv beta zeta.
+  destruct (Nat.leb 4 (span is_digit t)); [|discriminate].
+  destruct (to_eol (drop (span is_digit t) t)) as [k'|] eqn:E; [|discriminate].
+  intros H; inversion H; subst k. apply to_eol_no_lf in E; [|now apply no_lf_drop]. subst k'. apply span_len.
+Qed.
+Lemma state_anchored ic : anchored (m_state ic).
+Proof.
+  apply ws_then_anchored. intros t k Ht. cbv beta. destruct t as [|a [|b r]]; try discriminate. cbv beta iota zeta.
+  match goal with |- context [if ?c then Some 2 else None] => destruct c eqn:E end; [|discriminate]. intros H; inversion H; subst k.
+  apply andb_true_iff in E as [_ E]. apply at_end_no_lf in E; [now subst|].
+  unfold no_lf in *. cbn [allb] in Ht. apply andb_true_iff in Ht as [_ Ht]. now apply andb_true_iff in Ht as [_ ?].
+Qed.
+Lemma zip_anchored : anchored m_zip.
+Proof.
+  apply ws_then_anchored. intros t k Ht. cbv beta.
+  destruct (Nat.leb 5 (span is_digit t) && at_end (drop 5 t))%bool eqn:E; [|discriminate].
+  intros H; inversion H; subst k. apply andb_true_iff in E as [E1 E2]. apply Nat.leb_le in E1.
+  apply at_end_no_lf in E2; [|now apply no_lf_drop]. apply drop_nil_len in E2. pose proof (span_le is_digit t). lia.
+Qed.
+
+Lemma upper_no_lf s : no_lf (upper s) = no_lf s.
+Proof.
+  unfold no_lf, upper. induction s as [|c r IH]; [reflexivity|]. cbn [smap allb]. rewrite IH. f_equal.
+  clear. all_chars c.
+Qed.
+Lemma prefix_no_lf a q : no_lf (a ++ q) = true -> no_lf a = true.
+Proof. rewrite no_lf_app. intros H. now apply andb_true_iff in H as [? _]. Qed.
+
+Definition clean3 (d : string) : string := resub m_zip (resub (m_state false) (resub m_storeid (upper d))).
+Lemma clean3_prefix d : no_lf d = true -> exists q, upper d = clean3 d ++ q.
+Proof.
+  intros Hd. unfold clean3. rewrite <- upper_no_lf in Hd.
+  destruct (resub_anchored_prefix _ _ storeid_anchored Hd) as [q1 H1].
+  assert (N1 : no_lf (resub m_storeid (upper d)) = true) by (rewrite H1 in Hd; now apply prefix_no_lf in Hd).
+  destruct (resub_anchored_prefix _ _ (state_anchored false) N1) as [q2 H2].
+  assert (N2 : no_lf (resub (m_state false) (resub m_storeid (upper d))) = true) by (rewrite H2 in N1; now apply prefix_no_lf in N1).
+  destruct (resub_anchored_prefix _ _ zip_anchored N2) as [q3 H3].
+  exists (q3 ++ q2 ++ q1). rewrite H1 at 1. rewrite H2 at 1. rewrite H3 at 1. now rewrite !sapp_assoc.
+Qed.
+
+Lemma strip_prefixes_suffix ci ps s : exists p, s = p ++ strip_prefixes ci ps s.
+Proof.
+  revert s; induction ps as [|x ps IH]; intros s; cbn [strip_prefixes]; [now exists ""|].
+  match goal with |- context [strip_prefixes ci ps ?X] => destruct (IH X) as [p Hp]; set (Y := X) in * end.
+  assert (S : exists p0, s = p0 ++ Y).
+  { subst Y. destruct (if ci then _ else _); [apply drop_suffix | now exists ""]. }
+  destruct S as [p0 Hp0]. exists (p0 ++ p). rewrite sapp_assoc, <- Hp. exact Hp0.
+Qed.
+
+Lemma clean_eq d : clean d = Some (strip (strip_prefixes false pattern_prefixes (resub m_storeno (clean3 d)))).
+Proof. reflexivity. Qed.
+
+Definition plain_char (c : ascii) : bool := negb (is_meta c || is_ws c || raw_forbidden c).
+Definition storeno_noop (d : string) : bool := String.eqb (resub m_storeno (clean3 d)) (clean3 d).
+Definition plain_guard (d : string) : bool :=
+  (no_lf d && storeno_noop d && match clean d with Some s6 => allb plain_char s6 | None => false end)%bool.
+
+Lemma strip_prefixes_substr ci ps s3 u q : u = s3 ++ q -> substr (strip (strip_prefixes ci ps s3)) u.
+Proof.
+  intros Hq. destruct (strip_prefixes_suffix ci ps s3) as [p Hp].
+  revert Hp. generalize (strip_prefixes ci ps s3). intros X Hp.
+  eapply substr_trans; [apply strip_substr|].
+  rewrite Hq. eapply substr_trans; [|apply substr_prefix].
+  rewrite Hp. apply substr_suffix.
+Qed.
+Lemma clean_substr d s6 : no_lf d = true -> storeno_noop d = true -> clean d = Some s6 -> substr s6 (upper d).
+Proof.
+  intros Hd Hs Hc. rewrite clean_eq in Hc. unfold storeno_noop in Hs. apply String.eqb_eq in Hs. rewrite Hs in Hc.
+  destruct (clean3_prefix d Hd) as [q Hq].
+  pose proof (strip_prefixes_substr false pattern_prefixes (clean3 d) (upper d) q Hq) as S.
+  revert Hc S. generalize (strip (strip_prefixes false pattern_prefixes (clean3 d))). intros Y Hc S.
+  injection Hc as <-. exact S.
+Qed.
+
+Lemma escape_plain s : allb plain_char s = true -> escape_meta s = s.
+Proof.
+  unfold escape_meta. induction s as [|c r IH]; [reflexivity|]. cbn [allb cmap]. intros H. apply andb_true_iff in H as [H1 H2].
+  rewrite (IH H2). unfold plain_char in H1. apply negb_true_iff in H1. apply orb_false_iff in H1 as [H1 _].
+  apply orb_false_iff in H1 as [H1 _]. now rewrite H1.
+Qed.
+Lemma plain_nonws s : allb plain_char s = true -> allb nonws s = true.
+Proof.
+  induction s as [|c r IH]; [reflexivity|]. cbn [allb]. intros H. apply andb_true_iff in H as [H1 H2].
+  rewrite (IH H2), andb_true_r. clear -H1. revert H1. all_chars c.
+Qed.
+Lemma plain_lit s : allb plain_char s = true -> allb lit_plain_char s = true.
+Proof.
+  induction s as [|c r IH]; [reflexivity|]. cbn [allb]. intros H. apply andb_true_iff in H as [H1 H2].
+  rewrite (IH H2), andb_true_r. clear -H1. revert H1. all_chars c.
+Qed.
+Lemma pattern_of_plain s6 : allb plain_char s6 = true -> pattern_of_clean s6 = Some s6.
+Proof.
+  intros H. unfold pattern_of_clean. change (apply_escape pattern_escape s6) with (Some (escape_meta s6)).
+  rewrite (escape_plain s6 H). destruct s6 as [|c r] eqn:E; [reflexivity|]. rewrite <- E in *.
+  rewrite words_single; [reflexivity | subst; discriminate | now apply plain_nonws].
+Qed.
+
+Section WithRegex.
+  Variable re_search : string -> string -> option bool.
+  Theorem matches_partial d neg : plain_guard d = true -> observe re_search Orig d (tags_of neg) = ObsLoaded true.
+  Proof.
+    unfold plain_guard. intros G. apply andb_true_iff in G as [G G3]. apply andb_true_iff in G as [G1 G2].
+    destruct (clean d) as [s6|] eqn:C; [|discriminate].
+    unfold observe, suggested_rule, needle_of, suggest_pattern. rewrite C, (pattern_of_plain s6 G3).
+    destruct (merchant_name_ok d) as [nm [-> Hnm]].
+    unfold rule_text, quote, quote_orig.
+    rewrite (observe_loaded re_search _ nm s6).
+    - f_equal. apply ci_contains_of_substr_upper. now apply clean_substr.
+    - apply load_rule_lines; [assumption | apply qo_no_lf, plain_lit, G3 | apply tags_of_cases | apply qo_roundtrip, plain_lit, G3].
+  Qed.
+End WithRegex.
+
+Definition odflt (o : option string) : string := match o with Some s => s | None => "" end.
+(* the rule the loader produces from the repaired suggestion for d *)
+Definition rule_of (d : string) : rule := the_rule (odflt (suggest_merchant_name d)) (odflt (suggest_needle d)).
+
+Lemma rule_of_loaded d neg :
+  exists text, suggested_rule Fixed d (tags_of neg) = Some text /\ parse_merchants text = Loaded [rule_of d].
+Proof.
+  unfold suggested_rule, needle_of, rule_of.
+  destruct (merchant_name_ok d) as [nm [-> Hnm]]. destruct (needle_fixed_ok d) as [n [-> Hn]].
+  eexists; split; [reflexivity|]. unfold rule_text, quote, quote_fixed. cbn [odflt].
+  apply load_rule_lines; [assumption | apply json_no_lf | apply tags_of_cases | apply json_roundtrip].
+Qed.
+Lemma rule_of_matches d : ci_contains (odflt (suggest_needle d)) d = true.
+Proof. destruct (needle_fixed_ok d) as [n [-> Hn]]. exact Hn. Qed.
+
+Section WithRegex.
+  Variable re_search : string -> string -> option bool.
+  Notation matched := (matched re_search).
+
+  Lemma matched_app rs1 rs2 d : matched rs1 d = Some false -> matched (rs1 ++ rs2) d = matched rs2 d.
+  Proof.
+    induction rs1 as [|r rs1 IH]; [reflexivity|]. cbn [matched app].
+    destruct (eval_expr re_search (mexpr r) d) as [[|]| |]; try exact IH; try discriminate.
+    destruct (is_empty (category r)); [exact IH | discriminate].
+  Qed.
+  Lemma matched_suggested ds d : In d ds -> matched (map rule_of ds) d = Some true.
+  Proof.
+    induction ds as [|x ds IH]; [intros []|]. intros H. cbn [map matched].
+    unfold rule_of at 1. cbn [the_rule mexpr category eval_expr]. change (lower "contains") with "contains".
+    cbn [String.eqb Ascii.eqb Bool.eqb is_empty].
+    destruct (ci_contains (odflt (suggest_needle x)) d) eqn:E; [reflexivity|].
+    destruct H as [->|H]; [now rewrite rule_of_matches in E | now apply IH].
+  Qed.
+
+  Definition unknown (rs : list rule) (d : string) : bool :=
+    match matched rs d with Some true => false | _ => true end.
+  Definition unknown_count (rs : list rule) (ds : list string) : nat := length (filter (unknown rs) ds).
+
+  (* appending the suggestions for the unknown descriptions [ds] classifies every one of them;
+     so the Unknown list shrinks strictly whenever at least one suggestion was made *)
+  Theorem unknown_shrinks existing ds :
+    (forall d, In d ds -> matched existing d = Some false) ->
+    (forall d, In d ds -> unknown (existing ++ map rule_of ds) d = false) /\
+    (ds <> [] -> unknown_count (existing ++ map rule_of ds) ds < unknown_count existing ds).
+  Proof.
+    intros H.
+    assert (A : forall d, In d ds -> unknown (existing ++ map rule_of ds) d = false).
+    { intros d Hd. unfold unknown. rewrite matched_app by now apply H. now rewrite matched_suggested. }
+    split; [exact A|]. intros Hne. unfold unknown_count.
+    assert (B : forall l, (forall d, In d l -> In d ds) -> filter (unknown (existing ++ map rule_of ds)) l = []).
+    { induction l as [|x l IH]; [reflexivity|]. intros Hl. cbn [filter]. rewrite A by (apply Hl; now left).
+      apply IH. intros; apply Hl; now right. }
+    rewrite (B ds) by auto. cbn [length].
+    destruct ds as [|x l]; [congruence|]. cbn [filter]. unfold unknown at 1. rewrite (H x) by now left. cbn. lia.
+  Qed.
+End WithRegex.
+
+(* ================================================================== refutations of the full statements for the original design *)
+Definition no_re (p t : string) : option bool := None.
+Lemma orig_multiword_fails : observe no_re Orig "Acme Foo" [] = ObsLoaded false.
+Proof. vm_compute. reflexivity. Qed.
+Lemma orig_metachar_fails : observe no_re Orig "ACME.COM" [] = ObsLoaded false.
+Proof. vm_compute. reflexivity. Qed.
+Lemma orig_storeno_fails : observe no_re Orig "STORE #12X" [] = ObsLoaded false.
+Proof. vm_compute. reflexivity. Qed.
+Lemma orig_nul_fails : observe no_re Orig (String (chr 0) "") [] = ObsLoadErr.
+Proof. vm_compute. reflexivity. Qed.
